@@ -50,16 +50,19 @@ def run(ctx):
                        "1e-24 and the packing factors are taken as exact reals; Python uses their nearest doubles"]
     # one report per signature, on the shortest failing input
     best = {}
+    witness = set(m["text"] for m in meta if m["kind"] == "replace-witness")
+    rank = lambda d: (d["input"] not in witness, len(d["input"]))
     for d in data["direct_fails"]:
-        if d["signature"] not in best or len(d["input"]) < len(best[d["signature"]]["input"]):
+        if d["signature"] not in best or rank(d) < rank(best[d["signature"]]):
             best[d["signature"]] = d
     ctx.cov["direct_fails"] = dict((k, sum(1 for d in data["direct_fails"] if d["signature"] == k)) for k in best)
     for sig in sorted(best):
         ctx.report(sig, best[sig]["what"], dict(input=best[sig]))
     if not proved:
+        # a broken translation / proof is reported even when failing inputs were found: those may be
+        # listed known findings unrelated to what broke
         kind, msg = ctx.broken
-        if not data["direct_fails"]:
-            ctx.report("C12:" + kind, "%s no longer checks: %s" % (kind, msg), dict(obligation=kind, detail=msg), found_input=False)
+        ctx.report("C12:" + kind, "%s no longer checks: %s" % (kind, msg), dict(obligation=kind, detail=msg), found_input=False)
         return
     n_ok, fails, logs, _ = vlib.run_shards("C12", PRE, CT, cases, "check_all", shard=100 if quick else 400)
     for l in logs:
@@ -68,7 +71,7 @@ def run(ctx):
     if fails:
         diags = vlib.run_diag("C12", PRE, CT, [cases[i] for i in fails[:8]], "diag_all")
         direct_inputs = set(d.get("input") for d in data["direct_fails"])
-        unexplained = [i for i in fails if meta[i]["text"] not in direct_inputs]
+        unexplained = [i for i in fails if meta[i]["text"] not in direct_inputs and meta[i].get("base") not in direct_inputs]
         for i, dg in zip(fails[:8], diags):
             ctx.note("disagreement (%s) on %s" % (dg.strip(), meta[i]["text"]))
         ctx.cov["explained_by_direct_fails"] = len(fails) - len(unexplained)
@@ -85,17 +88,11 @@ def replay(path):
     text = (doc.get("input") or {}).get("input")
     print("recorded:", doc.get("what"))
     if not text:
-        print("no input recorded (obligation: %s)" % doc.get("obligation"))
+        print("no input recorded (obligation: %s); re-run ./check C12 %s" % (doc.get("obligation"), doc.get("tier", "quick")))
         return 0
-    stmts = text.split("; ")
-    code = ("import periodictable\nfrom periodictable import elements\nfrom periodictable.formulas import formula\n"
-            "try:\n" + "".join(" %s\n" % (s if i < len(stmts) - 1 or s.startswith("f = ") else "r = " + s) for i, s in enumerate(stmts)) +
-            " r = locals().get('r', f)\n"
-            " print('RESULT', r, getattr(r, 'density', ''), getattr(r, 'atoms', ''))\n"
-            "except Exception as e:\n print('RAISES', type(e).__name__, e)\n")
-    if not text.startswith("f = "):
-        code = ("from periodictable.formulas import formula\ntry:\n f = formula(%r); print('RESULT', f, f.density)\n"
-                "except Exception as e:\n print('RAISES', type(e).__name__, e)\n" % text)
-    rc, out = vlib.sh([vlib.PY, "-c", code], env=vlib.impl_env())
-    print(out)
-    return 1 if "RAISES" in out else 0
+    data = vlib.run_harness("c12.py", ["--replay", text])
+    for d in data["direct_fails"]:
+        print("FAILS %s: %s" % (d["signature"], d["what"]))
+    if not data["direct_fails"]:
+        print("the property's statements hold on this input now")
+    return 1 if data["direct_fails"] else 0
